@@ -140,7 +140,8 @@ PROPS = {
             {"pkg": "mcp", "mode": "instr", "test": "TestVerifC20Concurrent", "scenario_prefix": "concurrent/", "two_phase": True, "time_s": {"thorough": 1800}},
             {"pkg": "mcp", "mode": "race", "test": "TestVerifC20Concurrent", "scenario_prefix": "free-race/", "free_runs": {"quick": 60, "thorough": 600}},
         ],
-        "assumptions": ["payload contents are a function of (stream, index), so item sizes and first index determine the future behaviour of a state"],
+        "uses_vsched": True,
+        "assumptions": E1_ASSUME + ["payload contents are a function of (stream, index), so item sizes and first index determine the future behaviour of a state"],
     },
     "C06": {
         "level": "model_checking",
